@@ -154,6 +154,11 @@ def _cases(spec, rng):
 
         sub = dict(spec, kind=spec["sub"])
         yield from (("str", d) for d in c03._cases(sub, rng))
+        if spec["sub"] == "literals":
+            # integers wider than 64 bits rendered as strings (thousands of digits)
+            for n_, w_ in ((10**5000, 20000), (2**20000 - 1, 20000), (10**4300, 16384), (10**4299, 16384), (2**128 - 1, 128)):
+                yield ("str", ["inttostr", ["bvv", n_, w_]])
+                yield ("str", ["slen", ["inttostr", ["bvv", n_, w_]]])
 
 
 def allowed(e, fam, d, rng):
